@@ -12,6 +12,7 @@ package remote
 //@ import strings "strings"
 //@ import ocispec "github.com/opencontainers/image-spec/specs-go/v1"
 //@ import errdef "oras.land/oras-go/v2/errdef"
+//@ import spec "oras.land/oras-go/v2/internal/spec"
 //@
 //@ pure effLimit(n int64) int64 = n > 0 ? n : defaultMaxMetadataBytes
 //@
@@ -48,7 +49,8 @@ package remote
 //@ func isReferrersFilterApplied
 //@   loop 0 invariant [not-yet] forall i int :: 0 <= i && i < $i ==> splitPart(applied, ",", i) != requested
 //@   loop 0 invariant [parts] len(filters) == splitCount(applied, ",") && (forall i int :: 0 <= i && i < len(filters) ==> filters[i] == splitPart(applied, ",", i))
-//@   ensures [C15:exact] result == (applied != "" && requested != "" && (exists i int :: 0 <= i && i < splitCount(applied, ",") && splitPart(applied, ",", i) == requested))
+//@   ensures [C14,C15:exact] result == isFilterApplied(applied, requested)
+//@   modifies alloc, new elems[string]
 //@
 //@ func (*Repository).do
 //@   trusted
@@ -72,6 +74,13 @@ package remote
 //@   call fn set tagsFnCalls = tagsFnCalls + 1
 //@   call fn set tagsFnErr = result
 //@   call fn assume [callback-does-not-touch-response] resp.Request == old(resp.Request) && resp.Request.URL == old(resp.Request.URL) && resp.Body == old(resp.Body)
+//@   call parseLink set plCalls = plCalls + 1
+//@   call parseLink set plErr = result1
+//@   entry set plCalls = 0
+//@   call parseLink set plURL = result0
+//@   entry set pageDecoded = false
+//@   call Decode set pageDecoded = result == nil
+//@   ensures [C15:decoded-page-continues-by-link-header] pageDecoded && tagsFnCalls == 1 && tagsFnErr == nil ==> plCalls == 1 && result1 == plErr && result0 == plURL
 //@   ensures [C15:one-callback] result1 == nil ==> tagsFnCalls == 1
 //@   ensures [C15:at-most-one-callback] tagsFnCalls <= 1
 //@   ensures [C15:callback-error-identity] tagsFnCalls == 1 && tagsFnErr != nil ==> result1 == tagsFnErr
@@ -157,3 +166,30 @@ package remote
 //@   ensures [C13:body-closed-on-error] err != nil && fetchDone ==> closedRC(fetchResp.Body)
 //@   ensures [C13:returns-body] err == nil ==> rc == fetchResp.Body
 //@   ensures [C13:not-found] fetchDone && fetchResp.StatusCode == 404 ==> errors.Is(err, errdef.ErrNotFound)
+//@
+//@ ghost local pageDecoded bool
+//@ ghost local plCalls int
+//@ ghost local plErr error
+//@ ghost local plURL string
+//@ ghost local refFnCalls int
+//@ ghost local refFnErr error
+//@ func (*Repository).referrersPageByAPI
+//@   requires [wf] fn != nil
+//@   entry set plCalls = 0
+//@   entry set refFnCalls = 0
+//@   call parseLink set plCalls = plCalls + 1
+//@   call parseLink set plErr = result1
+//@   call parseLink set plURL = result0
+//@   call fn set refFnCalls = refFnCalls + 1
+//@   call fn set refFnErr = result
+//@   call fn requires [C15:callback-only-for-nonempty-page] len(args.arg0) > 0
+//@   call fn assume [callback-does-not-touch-response] resp.Request == old(resp.Request) && resp.Request.URL == old(resp.Request.URL) && resp.Body == old(resp.Body)
+//@   call NewDecoder requires [C15:limited-before-decode] limitOf(args.r) == effLimit(r.MaxMetadataBytes) && limitedFrom(args.r) == resp.Body
+//@   call filterReferrers requires [C14,C15:filter-iff-not-applied] artifactType != "" && !isFilterApplied(headerGet(resp.Header, headerOCIFiltersApplied), "artifactType") && !isFilterApplied(lookup(index.Annotations, spec.AnnotationReferrersFiltersApplied), "artifactType")
+//@   entry set pageDecoded = false
+//@   call Decode set pageDecoded = result == nil
+//@   ensures [C15:decoded-page-continues-by-link-header] pageDecoded && (refFnCalls == 0 || refFnErr == nil) ==> plCalls == 1 && result1 == plErr && result0 == plURL
+//@   ensures [C15:at-most-one-callback] refFnCalls <= 1
+//@   ensures [C15:callback-error-identity] refFnCalls == 1 && refFnErr != nil ==> result1 == refFnErr
+//@
+//@ pure isFilterApplied(applied string, requested string) bool = applied != "" && requested != "" && (exists i int :: 0 <= i && i < splitCount(applied, ",") && splitPart(applied, ",", i) == requested)
